@@ -13,22 +13,44 @@ from common import clist, cZ, cbool, cpair
 PROP = 'C20'
 COQ_DIR = 'Weights'
 ASSUMPTIONS = [
-    'weights are decimals with at most 4 decimals (model unit 1/10000); IEEE-754 double behaviour of '
-    'int(w*1000) is tied by the FloatTie sweeps for 3-decimal weights and by skipping 4-decimal inputs whose '
-    'float truncation is inexact (counted)',
-    'the final float accumulation of total progress is compared to the rational value to 1e-9, not proved',
+    'weights are decimal numbers with at most 15 significant digits (model unit 1/(1000c), c = 10^(d-3) for d '
+    'decimals, generated with d <= 12): Python float()/repr() round-trip such decimals exactly, which is what '
+    'FlowIR.stage_weights_add_to_one relies on (trusted, exercised by the run); the default weights '
+    'int(1000/n)/1000.0 are tied by the FloatTie sweeps',
+    'the float accumulation of total progress is the Coq primitive-float model FloatModel.fprogress '
+    '(compared bit for bit with Status.totalProgress on every case); its distance to the rational value '
+    'is proved (C20_float_progress: <= (n+3)*2^-52*X + n*2^-1074 for n <= 2^20 stages) and the run checks '
+    'the implementation against that proved bound instead of a 1e-9 tolerance',
+    'axioms reported by Print Assumptions for C20_float_progress/C20_float_complete/C20_float_constants '
+    '(Flocq 4.1 + Coq Reals): ClassicalDedekindReals.sig_not_dec, ClassicalDedekindReals.sig_forall_dec, '
+    'FunctionalExtensionality.functional_extensionality_dep, Classical_Prop.classic, and the primitive-float '
+    'specification axioms FloatAxioms.add_spec, mul_spec, leb_spec, eqb_spec, abs_spec, Prim2SF_valid, '
+    'SF2Prim_Prim2SF, Prim2SF_SF2Prim (Coq.Floats.FloatAxioms: the primitives implement IEEE-754 binary64); '
+    'the PrimFloat/PrimInt63 primitives',
     'StatusMonitor is driven with a duck-typed experiment/controller (fakes trusted)',
 ]
 HEADER = 'Require Import V.Weights.Model.\nOpen Scope Z_scope.'
 CHECKER = 'check_case'
+FHEADER = 'Require Import V.Weights.FloatModel.\nFrom Coq Require Import PrimFloat.'
+FCHECKER = 'check_fcase'
 
 
-def _doc(ms):
+def cfloat(x):
+    """exact Coq primitive-float literal of a Python double"""
+    return '(%s)%%float' % float(x).hex()
+
+
+def proved_bound(n, X):
+    """C20_float_progress: |reported - X| <= (n+3)*2^-52*X + n*2^-1074 (as an exact Fraction)"""
+    return Fraction(n + 3, 2 ** 52) * X + Fraction(n, 2 ** 1074)
+
+
+def _doc(ms, c=10):
     comps = [{'name': 'c%d' % i, 'stage': i, 'command': {'executable': 'ls'}} for i in range(len(ms))]
     sr = {}
     for i, m in enumerate(ms):
         if m is not None:
-            sr[i] = {'stage-weight': float(Fraction(m, 10000))}
+            sr[i] = {'stage-weight': float(Fraction(m, 1000 * c))}
     return {'components': comps, 'status-report': sr}
 
 
@@ -131,32 +153,62 @@ def gen_given(rng, n, kind):
             s = sum(ms[:-1])
             ms[-1] = 10000 - s if s <= 10000 else ms[-1]
         return ms
+    if kind == 'many':
+        # unit 1/(1000c), c = 10^(d-3), 5 <= d <= 12 decimals (the caller passes U = 1000c through n's closure)
+        raise ValueError('use gen_many')
     raise ValueError(kind)
 
 
+def gen_many(rng, n):
+    """weights with 5..12 decimals: (c, given) in units 1/(1000c); 60% sum to exactly one"""
+    d = rng.randint(5, 12)
+    c = 10 ** (d - 3)
+    U = 1000 * c
+    if rng.random() < 0.6:
+        cuts = sorted(rng.randint(0, U) for _ in range(n - 1))
+        ms = [b - a for a, b in zip([0] + cuts, cuts + [U])]
+        r = rng.random()
+        if r < 0.25 and n >= 2:
+            ms[rng.randrange(n)] += rng.choice([1, -1, 10, 999])      # off by a few units
+        elif r < 0.35 and n >= 2:
+            i, j = rng.sample(range(n), 2)
+            dlt = rng.randint(1, U // 2)
+            ms[i] += dlt + ms[j]
+            ms[j] = -dlt                                              # sums to one with a negative entry
+    else:
+        ms = [rng.randint(0, max(1, 2 * U // n)) for _ in range(n)]
+    return c, ms
+
+
 def classes_of(ms):
-    cl = []
-    if any(m is not None and m % 10 != 0 for m in ms):
-        cl.append('weight_with_more_than_three_decimals')
-    return cl
+    # no open finding is left for C20 (F20a, F20b, F20c are repaired): every violation alarms
+    return []
 
 
 def run(ctx):
     import experiment.model.frontends.flowir as F
     ctx.rule = ('n stages x weight assignment kind (missing / exact three decimals summing to one / with missing '
-                'entries / three decimals not summing to one / with a negative entry / four decimals); '
+                'entries / three decimals not summing to one / with a negative entry / four decimals / 5-12 decimals); '
                 'non-trivial = at least 2 stages and at least one given weight; distinct by (n, given list)')
     rng = ctx.rng
     ns = list(range(1, 61)) + [99, 100, 101, 333, 999, 1000, 1001, 1500]
     kinds = ['missing', 'exact3', 'exact3_some_missing', 'off3', 'negative', 'four']
     reps = 2 if ctx.tier == 'quick' else 12
-    cases = [[15000, -5000], [3333, 6667], [3335, 6675], [2000, 3000, 5000], [10000], [None], [0, 10000]]
+    # fixed corpus first (witnesses of the repaired findings F20a, F20b, F20c stay here so that a regression alarms)
+    cases = [(10, ms) for ms in ([15000, -5000], [3333, 6667], [3335, 6675], [2000, 3000, 5000], [10000], [None],
+                                 [0, 10000], [6000, None, 4000], [3333, 3333, 3334], [3339, 6669])]
+    cases += [(10 ** 7, [3333333333, 6666666667]), (10 ** 7, [3333333333, 6666666668]), (100, [1, 99999]),
+              (1, [200, 300, 500]), (10 ** 9, [1, 10 ** 12 - 1])]
     for n in ns:
         for kind in kinds:
             for _ in range(1 if kind == 'missing' else reps):
-                cases.append(gen_given(rng, n, kind))
+                cases.append((10, gen_given(rng, n, kind)))
+        for _ in range(reps):
+            cases.append(gen_many(rng, n))
     _explore(ctx, cases)
-    ctx.count('cases', len(cases))
+    # every stage complete, fixed: ten stages of 0.1 report 0.9999999999999999 (within the proved bound, not 1.0)
+    _explore(ctx, [(10, [1000] * 10), (10, [2000, 3000, 5000]), (10, [None] * 7)], complete=True)
+    ctx.count('cases', len(cases) + 3)
 
 
 def replay(ctx, path):
@@ -164,11 +216,11 @@ def replay(ctx, path):
     import common
     d = json.load(open(path))
     c = d.get('case') or d.get('first', {}).get('case')
-    ms = c['given'] if isinstance(c, dict) else None
+    ms = c.get('given') if isinstance(c, dict) else None
     if ms is None:
         print('replay file names no input (proof/correspondence obligation): re-run ./check C20')
         return 2
-    _explore(ctx, [ms])
+    _explore(ctx, [(c.get('scale', 10), ms)])
     for f in ctx.failures:
         print('REPRODUCED: %s on %s' % (f['what'], f['case']))
     for f in ctx.disagreements:
@@ -176,39 +228,45 @@ def replay(ctx, path):
     return 1 if (ctx.failures or ctx.disagreements) else 0
 
 
-def _explore(ctx, cases):
+def _explore(ctx, cases, complete=False):
     import experiment.model.frontends.flowir as F
     rng = ctx.rng
     mon = _Mon()
     terms = []
+    fterms = []
+    fcases = []
     try:
-        for ms in cases:
+        for c, ms in cases:
             n = len(ms)
+            U = 1000 * c
             given = [0 if m is None else m for m in ms]
-            concrete = F.FlowIRConcrete(_doc(ms), 'default', {})
+            concrete = F.FlowIRConcrete(_doc(ms, c), 'default', {})
             st = concrete.get_status()
             w = [st[i]['stage-weight'] for i in range(n)]
             m_, rec = mon.monitor(concrete, n)
             mw = list(m_.stageWeights)
-            ctx.case([n, ms], n >= 2 and any(x is not None for x in ms))
+            ctx.case([n, c, ms], n >= 2 and any(x is not None for x in ms))
+            ctx.count('scale_c=%s' % ('10^%d' % (len(str(c)) - 1)))
             ctx.count('n<=10' if n <= 10 else ('n<=60' if n <= 60 else 'n>60'))
-            wm = [int(round(x * 10000)) for x in w]
-            exact = all(abs(x - y / 10000.0) < 1e-12 for x, y in zip(w, wm))
+            # the weights as the decimal numbers they print as, in units 1/(1000c)
+            wq = [Fraction(repr(float(x))) * U for x in w]
+            exact = all(q.denominator == 1 for q in wq)
+            wm = [int(q) for q in wq]
             mon_ok = (mw == w)
             # ---- property predicate on the implementation
             cls = classes_of(ms)
             if not exact:
-                ctx.fail({'given': ms, 'weights': w}, 'normalised weight is not a 4-decimal number', cls)
+                ctx.fail({'given': ms, 'scale': c, 'weights': w}, 'normalised weight is not a multiple of the unit 1/(1000c)', cls)
             if any(x < 0 for x in w):
-                ctx.fail({'given': ms, 'weights': w}, 'negative stage weight after loading', cls)
-            if sum(wm) != 10000:
-                ctx.fail({'given': ms, 'weights': w}, 'stage weights do not sum to one after loading', cls)
-            if all(g >= 0 for g in given) and sum(given) == 10000 and wm != given:
-                ctx.fail({'given': ms, 'weights': w}, 'given weights summing to one were not kept', cls)
+                ctx.fail({'given': ms, 'scale': c, 'weights': w}, 'negative stage weight after loading', cls)
+            if sum(wq) != U:
+                ctx.fail({'given': ms, 'scale': c, 'weights': w}, 'stage weights do not sum to one after loading', cls)
+            if all(g >= 0 for g in given) and sum(given) == U and wm != given:
+                ctx.fail({'given': ms, 'scale': c, 'weights': w}, 'given weights summing to one were not kept', cls)
             if not mon_ok and not any(abs(a - b) > 1e-12 for a, b in zip(mw, w)):
                 mon_ok = True
             if not mon_ok:
-                ctx.fail({'given': ms, 'weights': w, 'monitor': mw}, 'StatusMonitor replaced the loaded weights', cls)
+                ctx.fail({'given': ms, 'scale': c, 'weights': w, 'monitor': mw}, 'StatusMonitor replaced the loaded weights', cls)
             # ---- progress
             D = 8
             prog = [rng.randint(0, D) for _ in range(n)]
@@ -217,28 +275,44 @@ def _explore(ctx, cases):
             cur = rng.randrange(n)
             finished = [i for i in range(n) if prog[i] == D and i != cur and rng.random() < 0.8]
             transit = [i for i in range(n) if i not in finished and i != cur and prog[i] > 0]
+            if complete:
+                prog, cur, finished, transit = [D] * n, n - 1, list(range(n - 1)), []
             contributing = set(finished) | set(transit) | {cur}
             tp = mon.total_progress(m_, rec, n, cur, transit, finished, [Fraction(p, D) for p in prog])
-            expect = sum(Fraction(prog[i], D) * Fraction(wm[i], 10000) for i in contributing)
-            if tp is None or abs(tp - float(expect)) > 1e-9:
-                ctx.disagree({'given': ms, 'prog': prog, 'cur': cur, 'finished': finished, 'transit': transit},
-                             tp, float(expect), 'C20 total progress: CheckStatus vs Weights.Model.total')
-            valid_w = all(x >= 0 for x in w) and sum(wm) == 10000
-            if valid_w and tp is not None and not (-1e-9 <= tp <= 1 + 1e-9):
-                ctx.fail({'given': ms, 'prog': prog, 'total': tp}, 'total progress outside [0,1]', cls)
-            if valid_w and all(p == D for p in prog) and len(contributing) == n and abs(tp - 1.0) > 1e-9:
-                ctx.fail({'given': ms, 'prog': prog, 'total': tp}, 'total progress is not one when every stage completed', cls)
+            expect = sum(Fraction(prog[i], D) * wq[i] / U for i in contributing)
+            # the proved bound (C20_float_progress) replaces the former 1e-9 tolerance; n = contributing stages
+            bound = proved_bound(len(contributing), expect)
+            pcase = {'given': ms, 'scale': c, 'prog': prog, 'cur': cur, 'finished': finished, 'transit': transit}
+            if tp is None or abs(Fraction(tp) - expect) > bound:
+                ctx.disagree(pcase, tp, float(expect),
+                             'C20 total progress: CheckStatus vs Weights.Model.total within the bound of C20_float_progress')
+            valid_w = all(x >= 0 for x in w) and sum(wq) == U
+            if valid_w and tp is not None and not (0 <= Fraction(tp) <= 1 + proved_bound(n, 1)):
+                ctx.fail({'given': ms, 'scale': c, 'prog': prog, 'total': tp}, 'total progress outside [0,1]', cls)
+            if valid_w and all(p == D for p in prog) and len(contributing) == n and \
+                    abs(Fraction(tp) - 1) > proved_bound(n, 1):
+                ctx.fail({'given': ms, 'scale': c, 'prog': prog, 'total': tp}, 'total progress is not one when every stage completed', cls)
+            if valid_w and all(p == D for p in prog) and len(contributing) == n:
+                ctx.count('complete_exactly_1.0' if tp == 1.0 else 'complete_within_ulps_of_1.0')
+            # ---- float model (bit for bit): active = current stage then stages in transit, then finished
+            if tp is not None:
+                act = [cur] + [i for i in sorted(transit) if i != cur]
+                fin_ = [i for i in sorted(finished) if i != cur]
+                fterms.append(cpair(clist([cpair(cfloat(float(Fraction(prog[i], D))), cfloat(mw[i])) for i in act], str),
+                                    cpair(clist([cfloat(mw[i]) for i in fin_], str), cfloat(tp))))
+                fcases.append(pcase)
             # ---- model comparison
-            inexact_trunc = any(int((g / 10000.0) * 1000) != (abs(g) // 10) * (1 if g >= 0 else -1) for g in given)
-            if inexact_trunc:
-                ctx.count('float_trunc_inexact_skipped')
-            else:
-                terms.append(cpair(clist(given, cZ), cpair(clist(wm, cZ), cbool(mw == w or mon_ok))))
-            ctx.sample({'given_ten_thousandths': ms, 'weights': w if n <= 8 else w[:3] + ['...'] + w[-1:],
+            if exact:
+                terms.append(cpair(cpair(cZ(c), clist(given, cZ)), cpair(clist(wm, cZ), cbool(mw == w or mon_ok))))
+            ctx.sample({'scale_c': c, 'given_units_of_1/(1000c)': ms, 'weights': w if n <= 8 else w[:3] + ['...'] + w[-1:],
                         'monitor_keeps': mon_ok, 'total_progress': tp})
     finally:
         mon.close()
+    fbad = ctx.model_mismatches(FHEADER, fterms, FCHECKER, chunk=150, name='fmodel')
+    for i in fbad:
+        ctx.disagree(fcases[i], 'see case term', fterms[i][:300],
+                     'C20 total progress: CheckStatus vs Weights.FloatModel.fprogress (bit for bit)')
     bad = ctx.model_mismatches(HEADER, terms, CHECKER, chunk=150)
     for k, i in enumerate(bad):
-        ctx.disagree(terms[i], 'see case term', ctx.model_eval(HEADER, 'run_case (fst %s)' % terms[i])[:400] if k < 3 else '',
+        ctx.disagree(terms[i], 'see case term', ctx.model_eval(HEADER, 'run_case (fst (fst %s)) (snd (fst %s))' % (terms[i], terms[i]))[:400] if k < 3 else '',
                      'C20 weights: inject_default_values/StatusMonitor vs Weights.Model.run_case')
